@@ -212,6 +212,51 @@ pub fn run(thorough: bool) -> Report {
             }
         }
     }
+    // a second alphabet: characters that are blank, numeric or invisible only to Unicode-aware
+    // predicates (full-width digit, superscript, no-break and ideographic space, byte order
+    // mark, form feed, a four-byte character) next to their ASCII counterparts
+    let chars2 = ["1", " ", "\n", "A", "\"", "\u{ff12}", "\u{b2}", "\u{a0}", "\u{feff}", "\u{3000}", "\u{c}", "\u{1f60a}"];
+    let mlen2 = if thorough { 6 } else { 4 };
+    let base2 = chars2.len() as u64;
+    for len in 1..=mlen2 {
+        let count = pow(base2, len);
+        strings += count;
+        let v: Vec<(Option<(String, String)>, String)> = (0..count)
+            .into_par_iter()
+            .map(|i| {
+                let text: String = decode_seq(i, base2, len).iter().map(|k| chars2[*k]).collect();
+                (check_file(&text), text)
+            })
+            .collect();
+        for (p, t) in v {
+            nontrivial += 1;
+            if let Some((s, d)) = p {
+                note(s, d, t, &mut by_sig);
+            }
+        }
+    }
+    // every menu file of <= 2 lines behind each of those characters
+    {
+        let pre = ["\u{feff}", "\u{a0}", "\u{3000}", "\u{c}", "\u{ff12}", "\u{b2}"];
+        let m = menu.len() as u64;
+        let mut jobs: Vec<String> = vec![];
+        for len in 1..=2 {
+            for i in 0..pow(m, len) {
+                let body = decode_seq(i, m, len).iter().map(|k| menu[*k]).collect::<Vec<_>>().join("\n");
+                for p in pre {
+                    jobs.push(format!("{}{}", p, body));
+                }
+            }
+        }
+        strings += jobs.len() as u64;
+        let v: Vec<(Option<(String, String)>, String)> = jobs.into_par_iter().map(|t| (check_file(&t), t)).collect();
+        for (p, t) in v {
+            nontrivial += 1;
+            if let Some((s, d)) = p {
+                note(s, d, t, &mut by_sig);
+            }
+        }
+    }
     // outcome classes for evidence: message counts over the line menu singles
     for l in &menu {
         let a = guarded(|| SourceFileAnalyzer::analyze(l.to_string()).messages().len());
